@@ -306,6 +306,15 @@ class CoreDriver:
                 x.data.transport.hold = True
                 x.data.transport.peer.set_write_buffer_limits(high=st[2] if len(st) > 2 else 4, low=1)
                 return True
+        elif op == "holdctl":  # the client stops reading its control connection: after st[2] bytes of replies the server's writer blocks
+            s = st[1]
+            x = self.sess.get(s)
+            if x is None or x.ctl is None:
+                ok = False
+            else:
+                x.ctl.transport.hold = True
+                x.ctl.transport.peer.set_write_buffer_limits(high=st[2] if len(st) > 2 else 4, low=1)
+                return True
         elif op == "tick":
             self.loop.advance_to(self.loop.time() + st[1] / 1000)
             net.log("Tick")
@@ -509,7 +518,9 @@ class CoreDriver:
         except Exception:
             zomb = set()
         closing = getattr(self, "_closing", None)
-        net.log("Snap", zomb=sorted(zomb), closing=closing is not None, closeok=closing is None or closing.done(), used=used, uused=uused, pool=pool, haspool=haspool, table=sorted(table), hastable=hastable, dsock=sorted(dsock),
+        # control connections the server has closed but whose socket cannot go away: replies still unsent, peer not reading
+        stalled = sorted({c.session for c in net.conns if c.kind == "ctl" and c.srv.closing and not c.srv.closed and c.srv.outbuf})
+        net.log("Snap", stalled=stalled, zomb=sorted(zomb), closing=closing is not None, closeok=closing is None or closing.done(), used=used, uused=uused, pool=pool, haspool=haspool, table=sorted(table), hastable=hastable, dsock=sorted(dsock),
                 files=sorted(files), lsn=sorted(lsn), sess=sess, gated=gated, hastree=True, tree=w.snapshot(),
                 ntasks=len(self.loop.all_tasks()))
 
